@@ -29,7 +29,8 @@ vars == <<cfg, phase, wrote, status, alive>>
 
 \* utf8adv: UTF8=ACCEPT is advertised; utf8: the client has also ENABLEd it (RFC 6855: only then may it send
 \* UTF-8 in quoted strings)
-Configs == {c \in [litminus : BOOLEAN, litplus : BOOLEAN, rev2 : BOOLEAN, utf8adv : BOOLEAN, utf8 : BOOLEAN] :
+\* saslir: SASL-IR is advertised (RFC 4959: only then may AUTHENTICATE carry an initial response on the command line)
+Configs == {c \in [litminus : BOOLEAN, litplus : BOOLEAN, rev2 : BOOLEAN, utf8adv : BOOLEAN, utf8 : BOOLEAN, saslir : BOOLEAN] :
               (c.litplus => c.litminus) /\ (c.rev2 => c.litminus)   \* RFC 7888, RFC 9051
               /\ (c.utf8 => c.utf8adv)}
 
@@ -41,12 +42,13 @@ LegalToken(c, t) ==
     [] t.rep = "quoted"  -> ~t.ctl /\ (t.bit8 => (c.rev2 \/ c.utf8))
     [] t.rep = "nonsync" -> c.litplus \/ (c.litminus /\ t.n <= LitMax)
     [] t.rep = "sync"    -> TRUE
+    [] t.rep = "ir"      -> c.saslir \/ c.rev2   \* initial response of AUTHENTICATE on the command line (part of IMAP4rev2)
     [] OTHER -> FALSE
 
 \* What the server advertised holds for the connection state it was advertised in: LOGIN, AUTHENTICATE, STARTTLS and
 \* UNAUTHENTICATE invalidate it (RFC 9051 6.1.1), and until the server has announced its capabilities again nothing is
 \* advertised - only what every server accepts may be written.
-NothingAdvertised == [litminus |-> FALSE, litplus |-> FALSE, rev2 |-> FALSE, utf8adv |-> FALSE, utf8 |-> FALSE]
+NothingAdvertised == [litminus |-> FALSE, litplus |-> FALSE, rev2 |-> FALSE, utf8adv |-> FALSE, utf8 |-> FALSE, saslir |-> FALSE]
 Effective(c, stale) == IF stale THEN NothingAdvertised ELSE c
 
 \* ---- the handshake -------------------------------------------------------------
